@@ -117,6 +117,10 @@ def RX (X : CRel) (s : SeqState) (r : Raw) : Prop := SX X s r.st
 
 theorem RX_fail {s : SeqState} (hi : SeqInv s) (e : Err) : RX X s (fail s e) := SX.rfl' hi
 theorem RX_done {s s' : SeqState} (h : SX X s s') : RX X s (done s') := h
+theorem RX_orRollback {s : SeqState} {r : Raw} (hi : SeqInv s) (h : RX X s r) : RX X s (r.orRollback s) := by
+  rcases Raw.orRollback_cases r s with e | ⟨e, he⟩
+  · rw [e]; exact h
+  · rw [he]; exact RX_fail hi _
 
 theorem RX_withChan {s : SeqState} {n : ChName} {f : ChanState → CRes} (hi : SeqInv s)
     (hf : ∀ c, s.getChan n = some c → ChanInv s.dev.maxSeqDur c →
